@@ -14,7 +14,7 @@
    every theorem holds for all of them. *)
 From Coq Require Import Permutation.
 From Verif Require Import Lib.Base Lib.Dyadic Model.Native
-  Proofs.NativeIndex Proofs.NativeCheck Proofs.NativeConv Proofs.NativeCall Proofs.NativeRun.
+  Proofs.NativeIndex Proofs.NativeCheck Proofs.NativeConv Proofs.NativeDec Proofs.NativeCall Proofs.NativeRun.
 
 (* ================= 1. set-up: what is accepted, what is rejected ================= *)
 
@@ -166,6 +166,16 @@ Theorem C17_guard_is_exact : forall t, valid_native_type t = true ->
 Proof. exact assignable_plain_iff. Qed.
 Print Assumptions C17_guard_is_exact.
 
+(* ... and necessary: an accepted function whose first parameter is not param_safe panics in
+   reflect.Call on every call that passes an argument *)
+Theorem C17_unsafe_first_param_always_panics : forall pf pp ff tbl idx s body a rest,
+  nindex tbl idx = NOk (s, body) -> wf_sig s -> forallb valid_native_type (eff_params s) = true ->
+  (variadic s = true \/ zlen (a :: rest) <= zlen (params s)) ->
+  param_safe (param_ty s 0) = false ->
+  call_native pf pp ff tbl idx (a :: rest) = NPanic PkCallAssign.
+Proof. exact unsafe_first_param_always_panics. Qed.
+Print Assumptions C17_unsafe_first_param_always_panics.
+
 Theorem C17_defined_slice_result_always_panics : forall e d dat,
   ty_eqb (TSlice e d) byte_slice = false -> from_native (GV (TSlice e d) dat) = NPanic PkRetSlice.
 Proof. exact from_native_defined_slice_panics. Qed.
@@ -259,6 +269,11 @@ Theorem C17_string_form : forall ff,
   v_str ff (VNum (FInf true)) = [45;105;110;102].
 Proof. exact v_str_table. Qed.
 Print Assumptions C17_string_form.
+
+(* the decimal form of an integer is its numeral: reading it back gives the integer *)
+Theorem C17_decimal_form : forall z, Z.abs z < 10 ^ 20 -> dec_value (z_to_dec z) = z.
+Proof. exact z_to_dec_value. Qed.
+Print Assumptions C17_decimal_form.
 
 Theorem C17_missing_arguments_are_zero_values :
   (forall d, zero_value (TBool d) = GV (TBool d) (DBool false)) /\
